@@ -136,6 +136,15 @@ def run(ctx):
     call = call[0]
     snap = rw.calls(r'BTreeMap::insert$|HashMap::insert$|alloc::vec::Vec::push$')
     snap_reads = [s for s in rw.calls(r'^std::fs::read$') if rw.can_reach(s.bb, call.bb)]
+    # the pre-pass as a private method (`let undo = self.current_contents_of(&files)?`): a callee of the crate, called before the apply
+    # step, that reads files and records them — its call stands for the inserts, and its own fs::read for one of the two reads
+    for h_ in rw.sites():
+        H_ = P.fns.get(h_.callee or '')
+        if H_ is None or H_.crate != rw.crate or h_.callee == apply_cl[0].path or not rw.can_reach(h_.bb, call.bb) or rw.can_reach(call.bb, h_.bb):
+            continue
+        if H_.calls(r'^std::fs::read$') and H_.calls(r'BTreeMap::insert$|HashMap::insert$|alloc::vec::Vec::push$'):
+            snap = snap + [h_]
+            snap_reads = snap_reads + [h_]
     ctx.ob('C14.3', rw, 'snapshot-before-apply', bool(snap) and len(snap_reads) >= 2 and all(not rw.can_reach(call.bb, s.bb) for s in snap),
            'current contents are read and recorded (%d insert site(s)) before the apply closure runs' % len(snap), line=call.line)
     after = rw.reach_from_after(call.bb)
